@@ -56,6 +56,7 @@ var reps = map[string][]string{
 	"bad_name!": {"bad_name!", "-x-.", "a..b"}, "name": {"name", "host", "a"}, "na.me": {"na.me", "sub.host.example", "a.b.c.d"},
 	"Name": {"Name", "HOST.Example"}, "user": {"user", "u%20ser"}, "pw": {"pw", "p:w", "p@w"}, "a b": {"a b", "a%20b"},
 	"h":    {"h", "example.org", "localhost"},
+	"esc-u0041": {"\\u0041", "\\n"}, "esc-ud800": {"\\ud800", "\\u12"}, "http://h": {"http://h", "//h/p?q#f"},
 	"UL55": {rep("中", 55), rep("é", 100), rep("я", 60) + "A"}, "UL85": {rep("中", 85), rep("ß", 120)},
 }
 
